@@ -49,18 +49,24 @@ def setup():
 OPS = ['def_m1', 'def_m2', 'def_m_none', 'def_m_empty', 'def_mg', 'def_special4', 'def_ab3', 'use_p', 'use_q_list', 'use_r_ab', 'use_p_uneval',
        'file2_redefine', 'include_def_use', 'finalize', 'def_and_use_one_text', 'use_then_def_one_text',
        'def_gin_macro5', 'use_p_short_ref', 'use_r_uneval', 'def_m11_skip_unknown', 'def_ab_skip_list', 'def_a_prefix',
-       'use_r_dictkey', 'use_r_dictkey_uneval', 'query_m', 'query_ab_value', 'file3_fails_midway', 'file3_repaired']
+       'use_r_dictkey', 'use_r_dictkey_uneval', 'query_m', 'query_ab_value', 'file3_fails_midway', 'file3_repaired',
+       'use_q_tuple']
 TEXT = {
     'def_m1': 'm = 1', 'def_m2': 'm = 2', 'def_m_none': 'm = None', 'def_m_empty': "m = ''", 'def_mg': 'm = @c05.g()', 'def_special4': 'm/macro.value = 4',
     'def_gin_macro5': 'm/gin.macro.value = 5',
     'def_ab3': 'a/b = 3', 'use_p': 'c05.c.p = %m', 'use_q_list': "c05.c.q = [%m, 'x', %m]", 'use_r_ab': 'c05.c.r = %a/b',
     'use_p_uneval': 'c05.c.p = @m/macro', 'use_p_short_ref': 'c05.c.p = @m/macro()',
     'use_r_uneval': 'c05.c.r = @m/gin.macro', 'def_m11_skip_unknown': 'm = 11', 'def_ab_skip_list': 'a/b = 12', 'def_a_prefix': 'a = 77',
+    'use_q_tuple': "c05.c.q = (%m, 'x', %a/b)",      # references inside a top-level TUPLE
     'use_r_dictkey': "c05.c.r = {%a/b: 'v'}", 'use_r_dictkey_uneval': "c05.c.r = {@m/macro: 'v'}",
     'def_and_use_one_text': 'm = 7\nc05.c.p = %m\nm = 8',
     'use_then_def_one_text': 'c05.c.r = %a/b\na/b = 9',
 }
 G = ('G',)
+
+
+class Tup(list):
+  """Template of a tuple value (a list subclass so that the list logic applies; the delivered type is checked)."""
 
 
 def bound(tier):
@@ -73,6 +79,9 @@ class World:
   def __init__(self):
     harness.hard_reset()
     del GCALLS[:]
+    # Python constants whose names END like the scope-like macro `a/b` and like `m`: a macro is not a constant
+    gin.constant('c05cst.deep.b', 'CONSTANT_B')
+    gin.constant('c05cst.x.m.y', 'CONSTANT_M')
     self.macros = {}      # name -> value or G
     self.params = {}      # param -> template: ('M', name) / list / ('U', name)
     self.locked = False
@@ -96,6 +105,8 @@ class World:
       self.params['p'] = ('M', 'm')
     elif op == 'use_q_list':
       self.params['q'] = [('M', 'm'), 'x', ('M', 'm')]
+    elif op == 'use_q_tuple':
+      self.params['q'] = Tup([('M', 'm'), 'x', ('M', 'a/b')])
     elif op == 'use_r_ab':
       self.params['r'] = ('M', 'a/b')
     elif op == 'use_p_uneval':
@@ -225,6 +236,9 @@ class World:
         ok = ok and g == default
         want[prm] = default
       elif isinstance(t, list):
+        if isinstance(t, Tup):
+          ok = ok and isinstance(g, tuple)
+          g = list(g) if isinstance(g, tuple) else g
         w = []
         if not isinstance(g, list) or len(g) != len(t):
           ok = False
